@@ -644,6 +644,16 @@ func (fr *Frame) applyContract(st *State, con *Contract, fn *ssa.Function, args 
 		g.oblige("pre", fmt.Sprintf("%s.%d", shortKey(con.Key), i+1), st.path, t, "precondition of "+con.Key+": "+rq.Text)
 		g.assumeUnder(st.path, t)
 	}
+	// recursion: the callee is the function under verification — its measure must have gone down
+	if fr.top && fr.con == con {
+		if con.Decreases == nil {
+			fail("recursive function %s needs a 'decreases' clause", con.Key)
+		}
+		mCall := fr.evalMath(con.Decreases.Expr, &specCtx{fr: fr, st: st, old: pre, kind: ctxCallPre, call: env, pkg: con.Pkg})
+		mEntry := fr.evalMath(con.Decreases.Expr, &specCtx{fr: fr, st: fr.entry, old: fr.entry, kind: ctxPre, pkg: con.Pkg})
+		g.oblige("dec", "rec", st.path, and(g.mathBin("<=", g.mathConst(big.NewInt(0)), mCall), g.mathBin("<", mCall, mEntry)),
+			"recursive call: the measure "+con.Decreases.Text+" is non-negative and smaller than at entry")
+	}
 	// havoc
 	if !con.HasAssigns {
 		st.heap = g.havocHeap(st.heap, true)
